@@ -58,6 +58,8 @@ class Concretizer:
     def apply_uf(self, name, args, t):
         if name.startswith('uf_'):
             meth = name[3:]
+            if meth == 'fdiv':
+                return z3.simplify(z3.fpDiv(RNE, args[0], args[1]))
             if meth == 'i2f':
                 return z3.simplify(z3.fpToFP(RNE, z3.RealVal(args[0].as_long()), F64))
             if meth == 'powi':
